@@ -222,3 +222,97 @@ theorem expected_nodup (ix : Ix) (data : List Nat) (h : (names ix.fields).Nodup)
     · subst ha; intro h; injection h with hp; cases hp
 
 end Account.C11
+
+namespace Account.C11
+
+/-! ## what `walk` returns, in terms of the event list and the failure list -/
+
+theorem walk_spec (steps : List (Event × Option Err)) :
+    (walk steps []).1 <+: steps.map (·.1) ∧
+    ((walk steps []).2 = .ok →
+      (walk steps []).1 = steps.map (·.1) ∧ ∀ o ∈ steps.map (·.2), o = none) ∧
+    (∀ c, (walk steps []).2 = .err c → ∃ i er,
+      (steps.map (·.2))[i]? = some (some er) ∧
+      (∀ j, j < i → (steps.map (·.2))[j]? = some none) ∧
+      (walk steps []).1 = (steps.map (·.1)).take (i + 1) ∧ c = toProgramError er) := by
+  rcases steps_cases steps with hall | ⟨pre, e, er, post, hsplit, hpre⟩
+  · rw [walk_all_none steps [] hall]
+    refine ⟨by simp, ?_, ?_⟩
+    · intro _
+      refine ⟨by simp, ?_⟩
+      intro o ho
+      obtain ⟨s, hs, rfl⟩ := List.mem_map.mp ho
+      exact hall s hs
+    · intro c hc; simp at hc
+  · subst hsplit
+    rw [walk_first_failure pre e er post [] hpre]
+    have hlen : (pre.map (·.2)).length = pre.length := by simp
+    refine ⟨?_, ?_, ?_⟩
+    · simp only [List.nil_append, List.map_append, List.map_cons]
+      exact ⟨post.map (·.1), by simp⟩
+    · intro h; simp at h
+    · intro c hc
+      simp only [Result.err.injEq] at hc
+      refine ⟨pre.length, er, ?_, ?_, ?_, hc.symm⟩
+      · simp only [List.map_append, List.map_cons]
+        rw [List.getElem?_append_right (by simp)]
+        simp
+      · intro j hj
+        simp only [List.map_append, List.map_cons]
+        rw [List.getElem?_append_left (by simpa using hj)]
+        rw [List.getElem?_map]
+        have : j < pre.length := hj
+        rw [List.getElem?_eq_getElem this]
+        simp only [Option.map_some, Option.some.injEq]
+        exact hpre _ (List.getElem_mem this)
+      · simp only [List.nil_append, List.map_append, List.map_cons]
+        rw [List.take_append]
+        simp
+
+/-- Forward direction: the first failing position determines the whole outcome. -/
+theorem walk_first (steps : List (Event × Option Err)) (i : Nat) (er : Err)
+    (hi : (steps.map (·.2))[i]? = some (some er))
+    (hpre : ∀ j, j < i → (steps.map (·.2))[j]? = some none) :
+    walk steps [] = ((steps.map (·.1)).take (i + 1), .err (toProgramError er)) := by
+  have h := walk_spec steps
+  cases hres : (walk steps []).2 with
+  | ok =>
+    have := (h.2.1 hres).2 (some er) (List.mem_of_getElem? hi)
+    simp at this
+  | err c =>
+    obtain ⟨i', er', h1, h2, h3, h4⟩ := h.2.2 c hres
+    have hii : i' = i := by
+      rcases Nat.lt_trichotomy i' i with hlt | heq | hgt
+      · have := hpre i' hlt; rw [h1] at this; simp at this
+      · exact heq
+      · have := h2 i hgt; rw [hi] at this; simp at this
+    subst hii
+    rw [hi] at h1
+    have : er = er' := by simpa using h1
+    subst this
+    rw [← h3, h4, ← hres]
+
+/-! ## a per-field loop only appends events of its own phase -/
+
+theorem fieldLoop_phase (ph : Phase) (fail : Nat → Nat → Option Err) :
+    ∀ (fs : List Nat) (k : Nat) (tr : Trace) (e : Event),
+    e ∈ (fieldLoop ph fail k fs tr).1 → e ∈ tr ∨ e.phase = ph
+  | [], k, tr, e, h => by simp [fieldLoop] at h; exact Or.inl h
+  | f :: fs, k, tr, e, h => by
+    simp only [fieldLoop] at h
+    cases hf : fail k f with
+    | some er =>
+      simp [hf] at h
+      rcases h with h | rfl
+      · exact Or.inl h
+      · exact Or.inr rfl
+    | none =>
+      simp only [hf] at h
+      rcases fieldLoop_phase ph fail fs (k + 1) _ e h with h | h
+      · simp at h
+        rcases h with h | rfl
+        · exact Or.inl h
+        · exact Or.inr rfl
+      · exact Or.inr h
+
+end Account.C11
